@@ -97,8 +97,6 @@ def build_jobs(tier: str) -> list:
     for name, text in sim.example_inputs().items():
         if name.startswith(('Beckers', 'example6', 'example7', 'MC_', 'SUTRA', 'example_SBT', 'Wanju')):
             continue
-        if tier == 'quick' and name.startswith(('Fervo', 'example_SHR')):
-            continue
         jobs.append((f'example:{name}', text))
     # the accepted regime "bottom-hole temperature at or below the injection temperature" (known finding)
     for k in range(4 if tier == 'quick' else 20):
